@@ -15,6 +15,8 @@ pub struct Scope {
     pub copyroot: bool,
     /// NewChild / Link / Unlink enabled
     pub graph: bool,
+    /// allocation of nodes that hold a pointer from construction (NewChildHolding / NewRootHolding)
+    pub holding: bool,
     /// root operations also through map_root / try_map_root
     pub maproot: bool,
     pub upgrade_ops: bool,
@@ -67,6 +69,7 @@ pub const BASE: Scope = Scope {
     dynweak: false,
     copyroot: true,
     graph: true,
+    holding: false,
     maproot: false,
     upgrade_ops: true,
     wrap: true,
@@ -102,6 +105,7 @@ pub fn scope(name: &str) -> Option<Scope> {
         "S2fm" => Scope { name: "S2fm", n: 2, r: 1, k: 1, fin: true, wrap: false, copyroot: false, maproot: true, ..BASE },
         "S2f1" => Scope { name: "S2f1", fin: true, wrap: false, r: 1, k: 1, ..BASE },
         // chains of 3 / 4 objects, one root slot, one strong slot, no weak
+        "S3h" => Scope { name: "S3h", n: 3, r: 2, k: 1, weak: false, upgrade_ops: false, copyroot: false, wrap: false, holding: true, ..BASE },
         "S3c" => Scope { name: "S3c", n: 3, r: 1, k: 1, weak: false, upgrade_ops: false, ..BASE },
         "S4c" => Scope { name: "S4c", n: 4, r: 1, k: 1, weak: false, upgrade_ops: false, ..BASE },
         "S3w" => Scope { name: "S3w", n: 3, r: 1, k: 1, ..BASE },
